@@ -86,6 +86,11 @@ class ModelGroup:
         model: ModelFunction
         for model in self:
             self._log.info("Model: %r", model.name)
+
+            if debug:
+                # State of the buckets just before this model
+                ds_before = detector.to_xarray().copy(deep=True)
+
             try:
                 model(detector)
             except Exception as exc:
@@ -168,18 +173,16 @@ class ModelGroup:
                         f"{pipeline_key}/{model_group_key}/{model_key}"
                     ] = datatree_model
 
-                # TODO: Refactor. Is 'last' needed ?
-                last_key: str = "last"
-                if last_key not in detector.intermediate:
-                    last_full_ds: xr.Dataset = xr.zeros_like(ds)
-                else:
-                    last_full_ds = detector.intermediate[last_key]  # type: ignore
-
+                # Keep the buckets modified by this model
                 for name, data_array in ds.data_vars.items():
-                    if name in last_full_ds:
-                        previous_data_array = last_full_ds[name]
+                    if name in ds_before:
+                        previous_data_array = ds_before[name]
 
-                        if not np.allclose(data_array, previous_data_array):
+                        if (
+                            data_array.shape != previous_data_array.shape
+                            or data_array.dtype != previous_data_array.dtype
+                            or not np.allclose(data_array, previous_data_array)
+                        ):
                             detector.intermediate[
                                 f"{pipeline_key}/{model_group_key}/{model_key}/{name}"
                             ] = data_array
@@ -187,5 +190,3 @@ class ModelGroup:
                         detector.intermediate[
                             f"{pipeline_key}/{model_group_key}/{model_key}/{name}"
                         ] = data_array
-
-                detector.intermediate[last_key] = xr.DataTree(ds.copy(deep=True))
